@@ -569,7 +569,7 @@ func genCase(t *rapid.T, maxOps int) Case {
 	}
 	n := rapid.IntRange(1, maxOps).Draw(t, "n")
 	open := false
-	vals := []string{"x", "y", "zz", "x\x00", "\xe2\x9b"} // never the marker itself: no caller writes it
+	vals := []string{"x", "y", "zz", "x\x00", "\xe2\x9b", ""} // never the marker itself: no caller writes it
 	for i := 0; i < n; i++ {
 		kind := rapid.SampledFrom([]string{"set", "set", "set", "del", "del", "get", "exists", "begin", "commitS", "discardS", "commit", "commit", "reopen", "getv"}).Draw(t, "op")
 		o := Op{K: kind}
@@ -602,7 +602,7 @@ func genCase(t *rapid.T, maxOps int) Case {
 func TestC09Random(t *testing.T) {
 	h := run.Start(t, "C09")
 	defer h.Finish()
-	h.SetRule("random operation sequences (1..400 ops, thorough 1..2000) over keys {a,b,c,ab}, 5 values, 5 rotation settings, with and without a gas store; non-trivial as in the exhaustive part; distinct by operation string")
+	h.SetRule("random operation sequences (1..400 ops, thorough 1..2000) over keys {a,b,c,ab}, 6 values (the empty value included), 5 rotation settings, with and without a gas store; non-trivial as in the exhaustive part; distinct by operation string")
 	maxOps := h.Scale(400, 2000)
 	rapid.Check(t, func(rt *rapid.T) {
 		c := genCase(rt, maxOps)
